@@ -1,32 +1,51 @@
 /-
-  C18 — obligations tying the REGENERATED call sequences (Generated/C18.lean, rewritten from the Go source on every
-  run) to the hand-written model. Behaviour cannot reveal a dropped `Sync`, a `Close` moved behind the `Rename`, a temp
-  file created in another directory (rename no longer atomic across file systems) or a second, direct write to the
-  target; these obligations do.
+  C18 — obligations tying the REGENERATED facts (Generated/C18.lean, rewritten from the Go source on every run) to the
+  hand-written model. Behaviour cannot reveal a dropped `Sync`, a `Close` moved behind the `Rename`, a temp file created
+  in another directory (rename no longer atomic across file systems) or a second, direct write to the target; these do.
+
+  Every fact is an `Option`: `none` = the translator could not locate the anchor or does not understand its shape (the
+  calls moved into helpers it does not follow, a method disappeared): the obligation is then vacuous, bin/check prints
+  `T-TIE-UNAVAILABLE` and the correspondence ops carry the property alone. A fact that IS located must satisfy its
+  obligation. The facts name calls by package function / method name and refer to parameters, receivers and the temp-file
+  variable by ROLE, so renaming locals, receivers or the mutex field changes nothing.
 -/
 import SygmaModel.Model.C18
 import SygmaModel.Generated.C18
 namespace Sygma.C18
 
-/-- the success path of `util.WriteFileAtomic` is, call for call, the model's `storeAtomic` -/
-theorem gen_main : Generated.C18.atomicMain = (storeAtomic "p" "t" []).main.map Op.name := by decide
+/-- the success path of `util.WriteFileAtomic` is, call for call, the model's `storeAtomic`, and its deferred error
+    handler the model's clean-up (after a successful CreateTemp). Call NAMES in source order — not arguments or control flow. -/
+theorem gen_calls : ∀ c, Generated.C18.atomicCalls = some c →
+    c = ((storeAtomic "p" "t" []).main.map Op.name, ((storeAtomic "p" "t" []).cleanup 1).map Op.name) := by
+  intro c hc
+  unfold Generated.C18.atomicCalls at hc
+  cases hc
+  all_goals decide
 
-/-- its deferred error handler is the model's clean-up (after a successful CreateTemp) -/
-theorem gen_cleanup : Generated.C18.atomicCleanup = ((storeAtomic "p" "t" []).cleanup 1).map Op.name ∧
-    Generated.C18.deferAfterCreate = true := by decide
+/-- the temp file lives next to the target, the rename goes from the temp file onto the target, the handler removes the
+    temp file and is registered right after the successful CreateTemp -/
+theorem gen_paths : ∀ p, Generated.C18.atomicPaths = some p → p = (true, true, true, true) := by
+  intro p hp
+  unfold Generated.C18.atomicPaths at hp
+  cases hp
+  all_goals decide
 
-/-- the temp file lives next to the target, the rename goes onto the target, the handler removes the temp file -/
-theorem gen_paths : Generated.C18.tempInSameDir = true ∧ Generated.C18.renameOntoPath = true ∧
-    Generated.C18.removesTemp = true := by decide
+/-- each of the three Store functions does nothing to the file system except one `WriteFileAtomic` on a path held by
+    its own store object (no `OpenFile(O_TRUNC)`, no direct write, no second target) -/
+theorem gen_stores : ∀ s, Generated.C18.storeFsCalls = some s →
+    s = List.replicate 3 ["util.WriteFileAtomic", "own-path"] := by
+  intro s hs
+  unfold Generated.C18.storeFsCalls at hs
+  cases hs
+  all_goals decide
 
-/-- each of the three Store functions marshals first and then does nothing to the file system except one
-    `WriteFileAtomic` on its own path (no `OpenFile(O_TRUNC)`, no direct write) -/
-theorem gen_stores : Generated.C18.storeCalls =
-    List.replicate 3 ["json.Marshal", "util.WriteFileAtomic", "path-ok"] := by decide
-
-/-- `LockKeyshare` / `UnlockKeyshare` of both key-share stores do nothing but take / release the mutex: no file-system
-    call hides in the bracket every reader and writer puts around its access (model: `ObjOp.get` = Lock, Get, Unlock) -/
-theorem gen_lock_bodies : Generated.C18.lockCalls =
-    [["ks.mu.Lock"], ["ks.mu.Unlock"], ["ks.mu.Lock"], ["ks.mu.Unlock"]] := by decide
+/-- `LockKeyshare` / `UnlockKeyshare` of both key-share stores do nothing but take / release a mutex held in a field of
+    the store: no file-system call hides in the bracket every reader and writer puts around its access -/
+theorem gen_lock_bodies : ∀ l, Generated.C18.lockCalls = some l →
+    l = [["recv._.Lock"], ["recv._.Unlock"], ["recv._.Lock"], ["recv._.Unlock"]] := by
+  intro l hl
+  unfold Generated.C18.lockCalls at hl
+  cases hl
+  all_goals decide
 
 end Sygma.C18
